@@ -4,6 +4,9 @@
  *   h_crc random SEED N         N random buffers, misaligned, whole vs 2-splits / k-splits vs reference
  *   h_crc long SEED MAXLOG2     long buffers: lengths 2^k-1, 2^k, 2^k+1 (k = 8..MAXLOG2), multiples of 65536, random lengths
  *                               up to 2^21; whole vs reference, vs a 2-split and vs a k-split with pieces that may exceed 65535
+ *   h_crc echo LO HI            content/state coincidences: for every state c in [LO,HI), prefixes of 0..7 bytes, then the two
+ *                               bytes that make (running state XOR data) equal 0, 0xFFFF, 0x8000, 0x0001, 0xA001, 0x00FF, 0xFF00,
+ *                               followed by 2 or 6 bytes of 0x00 / 0xFF and a short tail; whole, split at the prefix, vs reference
  *   h_crc huge SEED LEN         one buffer of LEN bytes (LEN may exceed 2^32), whole and 2-split, vs reference
  * Prints "MISMATCH ..." lines (at most 20) and one "SUMMARY ..." line.
  */
@@ -112,6 +115,27 @@ int main(int argc, char **argv)
 			}
 		}
 		free(arena);
+	} else if (!strcmp(argv[1], "echo")) {
+		static const uint16_t XS[] = {0, 0xFFFF, 0x8000, 0x0001, 0xA001, 0x00FF, 0xFF00};
+		unsigned lo = atoi(argv[2]), hi = atoi(argv[3]), c, off, xi, f, fl;
+		uint8_t arena[64];
+		sm_state = 0x1234567 + lo;
+		for (c = lo; c < hi; ++c) for (off = 0; off < 8; ++off) for (xi = 0; xi < sizeof(XS) / sizeof(*XS); ++xi)
+		for (f = 0; f < 2; ++f) for (fl = 2; fl <= 6; fl += 4) {
+			uint8_t *p = arena + (c & 3); size_t n = 0, i, tail; uint16_t st, want, whole, sp; uint64_t r = sm();
+			for (i = 0; i < off; ++i) p[n++] = (uint8_t) (r >> (8 * i));
+			st = ref_buf((uint16_t) c, p, off);
+			p[n++] = (uint8_t) ((st ^ XS[xi]) & 0xff); p[n++] = (uint8_t) ((st ^ XS[xi]) >> 8);
+			for (i = 0; i < fl; ++i) p[n++] = f ? 0xFF : 0x00;
+			tail = (r >> 60) & 3;
+			for (i = 0; i < tail; ++i) p[n++] = (uint8_t) (r >> (40 + 8 * i));
+			want = ref_buf((uint16_t) c, p, n);
+			whole = (uint16_t) c; lha_crc16_buf(&whole, p, n);
+			if (whole != want) report("echo-whole", c, p, n, 0, whole, want);
+			sp = (uint16_t) c; lha_crc16_buf(&sp, p, off); lha_crc16_buf(&sp, p + off, n - off);
+			if (sp != want) report("echo-split-at-prefix", c, p, n, off, sp, want);
+			++cases; ++splits;
+		}
 	} else if (!strcmp(argv[1], "long") || !strcmp(argv[1], "huge")) {
 		size_t *lens = malloc(4096 * sizeof(size_t)), nl = 0, maxlen = 0, li;
 		uint8_t *arena;
